@@ -41,7 +41,7 @@ def _dump(n):
     return ast.dump(n, include_attributes=False)
 
 
-VALUE_KINDS = {"store", "let", "carry", "final", "call", "yield", "enter", "enter-loop", "expr"}
+VALUE_KINDS = {"store", "let", "new", "carry", "final", "call", "yield", "enter", "enter-loop", "expr"}
 
 
 def effect_text(ef):
@@ -51,9 +51,38 @@ def effect_text(ef):
     return "%s %s" % (k, t)
 
 
+def _inline_new(effs, result):
+    """An object with identity that is read exactly once (right where it is declared) needs no name."""
+    effs = list(effs)
+    i = 0
+    while i < len(effs):
+        k, nm, v = effs[i]
+        if k == "new":
+            later = [e for _, _, e in effs[i + 1:] if isinstance(e, ast.expr)]
+            later_t = [t for kk, t, _ in effs[i + 1:] if kk in ("store", "del", "with")]
+            if result and isinstance(result[1], ast.AST):
+                later.append(result[1])
+            uses = sum(1 for e in later for x in ast.walk(e) if isinstance(x, ast.Name) and x.id == nm)
+            text_uses = sum(1 for t in later_t if nm in t.replace("[", " ").replace(".", " ").replace("]", " ").split())
+            if uses == 1 and text_uses == 0:
+                class R(ast.NodeTransformer):
+                    def visit_Name(self, n):
+                        return copy.deepcopy(v) if n.id == nm else n
+                new = []
+                for kk, t, e in effs[i + 1:]:
+                    new.append((kk, t, R().visit(copy.deepcopy(e)) if isinstance(e, ast.expr) else e))
+                effs[i:] = new
+                if result and isinstance(result[1], ast.AST):
+                    result = (result[0], R().visit(copy.deepcopy(result[1])))
+                continue
+        i += 1
+    return effs, result
+
+
 def full_outcome(p):
-    effs = list(p.effects)
-    k, e = p.result if p.result else ("none", None)
+    effs, res = _inline_new(p.effects, p.result)
+    p_result = res
+    k, e = p_result if p_result else ("none", None)
     if k in ("return", "raise"):
         # leaving a loop by `break` only to return is leaving it by `return`
         while effs and effs[-1][0] == "endloop":
@@ -65,7 +94,13 @@ def full_outcome(p):
             else:
                 break
     parts = [effect_text(ef) for ef in effs]
-    if k in ("return", "raise"):
+    if k == "raise":
+        # the exception's type is what callers can observe and properties talk about; its message text is not compared
+        t = e
+        if isinstance(t, ast.Tuple) and t.elts:
+            t = t.elts[0]
+        parts.append("raise %s" % (src(t.func) if isinstance(t, ast.Call) else (src(t) if t is not None else "")))
+    elif k == "return":
         parts.append("%s %s" % (k, summ.arith_text(e) if e is not None else ""))
     else:
         parts.append(k)
@@ -187,10 +222,68 @@ def blocks_equivalent(sa_, sb_, depth=0, ta=(), tb=()):
                 if tag == "equal":
                     continue
                 if not blocks_equivalent(sa_[i1:i2], sb_[j1:j2], depth + 1, sa_[i2:] + ta2, sb_[j2:] + tb2):
-                    ok = False
+                    # one side may leave early where the other runs on: compare everything from here to the end
+                    rest_a, rest_b = sa_[i1:] + cut_a, sb_[j1:] + cut_b
+                    if (i1, j1) != (0, 0):
+                        ok = blocks_equivalent(rest_a, rest_b, depth + 1, ta, tb)
+                    else:
+                        ok = region_equivalent(rest_a, rest_b, ta, tb) is True
                     break
             return ok
     return False
+
+
+def _adopt_equivalent_nested(body_a, body_b, depth=0):
+    """Nested definitions (closures, classes in functions) that are proven equivalent to their baseline counterpart are
+    replaced by it, so that the enclosing function's comparison (which reads nested definitions as text) succeeds."""
+    if depth > 4:
+        return
+    by_name = {}
+    for st in _iter_defs(body_b):
+        by_name.setdefault((type(st).__name__, st.name), []).append(st)
+    seen = {}
+    for holder, i, st in _iter_defs_pos(body_a):
+        key = (type(st).__name__, st.name)
+        k = seen.get(key, 0)
+        seen[key] = k + 1
+        cands = by_name.get(key, [])
+        if k >= len(cands):
+            continue
+        base = cands[k]
+        if _dump(st) == _dump(base):
+            continue
+        if isinstance(st, ast.ClassDef):
+            _adopt_equivalent_nested(st.body, base.body, depth + 1)
+            continue
+        ok, _ = functions_equivalent(st, base)
+        if ok:
+            holder[i] = copy.deepcopy(base)
+
+
+def _iter_defs(body):
+    for st in body:
+        if isinstance(st, (ast.FunctionDef, ast.AsyncFunctionDef, ast.ClassDef)):
+            yield st
+        elif isinstance(st, (ast.If, ast.Try, ast.With, ast.For, ast.While)):
+            for fld in ("body", "orelse", "finalbody"):
+                for x in _iter_defs(getattr(st, fld, []) or []):
+                    yield x
+            for h in getattr(st, "handlers", []) or []:
+                for x in _iter_defs(h.body):
+                    yield x
+
+
+def _iter_defs_pos(body):
+    for i, st in enumerate(body):
+        if isinstance(st, (ast.FunctionDef, ast.AsyncFunctionDef, ast.ClassDef)):
+            yield body, i, st
+        elif isinstance(st, (ast.If, ast.Try, ast.With, ast.For, ast.While)):
+            for fld in ("body", "orelse", "finalbody"):
+                for x in _iter_defs_pos(getattr(st, fld, []) or []):
+                    yield x
+            for h in getattr(st, "handlers", []) or []:
+                for x in _iter_defs_pos(h.body):
+                    yield x
 
 
 def functions_equivalent(fa, fb):
@@ -203,6 +296,11 @@ def functions_equivalent(fa, fb):
         return False, "decorators differ"
     if _dump(fa) == _dump(fb):
         return True, "identical"
+    if any(True for _ in _iter_defs(fa.body)):
+        fa = copy.deepcopy(fa)
+        _adopt_equivalent_nested(fa.body, fb.body)
+        if _dump(fa) == _dump(fb):
+            return True, "nested definitions equivalent"
     try:
         # the names as written first (most edits keep them), then with locals renamed by first binding
         if blocks_equivalent(_strip_doc(fa.body), _strip_doc(fb.body), 0, [], []):
